@@ -452,6 +452,21 @@ func c01VarInt(c c01VarIntCase) (fs []rep.Finding) {
 	if !bytes.Equal(b, want) {
 		fs = append(fs, rep.F("VarInt|Bytes", fmt.Sprintf("%d encodes as %x, want %x", c.V, b, want)))
 	}
+	// the returned bytes are the caller's: extended (as in append(v.Bytes(), payload...)) and
+	// overwritten, they must not change what this or a neighbouring value encodes to afterwards
+	b = append(b, 0xde, 0xad, 0xbe, 0xef, 0xde, 0xad, 0xbe, 0xef)
+	for i := range b {
+		b[i] = 0xde
+	}
+	for d := uint64(0); d <= 8; d++ {
+		if c.V+d < c.V {
+			break
+		}
+		if got := bt.VarInt(c.V + d).Bytes(); !bytes.Equal(got, txref.VarInt(c.V+d)) {
+			fs = append(fs, rep.F("VarInt|Bytes-shares-memory", fmt.Sprintf("after the bytes returned for %d were extended and overwritten by their owner, %d encodes as %x", c.V, c.V+d, got)))
+			break
+		}
+	}
 	if v.Length() != len(want) {
 		fs = append(fs, rep.F("VarInt|Length", fmt.Sprintf("Length(%d)=%d, encoding has %d bytes", c.V, v.Length(), len(want))))
 	}
@@ -477,7 +492,7 @@ func c01VarInt(c c01VarIntCase) (fs []rep.Finding) {
 
 func init() {
 	p := register(&Prop{ID: "C01", Level: "exploration",
-		Rule: "exhaustive over: (0) the length prefix alone: every value 0..70000 and 2^k-2..2^k+2 for k=17..64 through VarInt.Bytes/Length/ReadFrom/NewVarIntFromBytes/UpperLimitInc against the reference classes; (1) product of shapes nIn,nOut in 0..3 x per-input {vout,seq in 3 values, script len 0/1/2/nil, prev value 2, prev script nil/empty/1} x per-output {4 values, len 0/1/2} x version,locktime in 7 boundary values each, plus one-dimension-at-a-time boundary cross (counts and script lengths 252,253,65535,65536); each through Bytes/ExtendedBytes/TxID/NewTxFromBytes/NewTxFromStream/ReadFrom/Clone against the reference codec; (2) every such serialisation with each length prefix (alone and in pairs) re-encoded in each wider class; (2b) every truncation of those serialisations; (3) all strings <version>[marker]x with x of length<=8/9 (quick/thorough) over {00,01,02,EF,FD,FE,FF}; (4) all ordered pairs/triples of 12 serialisations x 0..2 trailing bytes through stream, reader and counted-list decoding with the count in every varint class, the list variable then parsing a shorter and an empty list. distinct_nontrivial = distinct serialisations/strings on which the library accepted",
+		Rule: "exhaustive over: (0) the length prefix alone: every value 0..70000 and 2^k-2..2^k+2 for k=17..64 through VarInt.Bytes/Length/ReadFrom/NewVarIntFromBytes/UpperLimitInc against the reference classes (the bytes VarInt.Bytes returned are extended and overwritten, then the value and its 8 successors are encoded again); (1) product of shapes nIn,nOut in 0..3 x per-input {vout,seq in 3 values, script len 0/1/2/nil, prev value 2, prev script nil/empty/1} x per-output {4 values, len 0/1/2} x version,locktime in 7 boundary values each, plus one-dimension-at-a-time boundary cross (counts and script lengths 252,253,65535,65536); each through Bytes/ExtendedBytes/TxID/NewTxFromBytes/NewTxFromStream/ReadFrom/Clone against the reference codec; (2) every such serialisation with each length prefix (alone and in pairs) re-encoded in each wider class; (2b) every truncation of those serialisations; (3) all strings <version>[marker]x with x of length<=8/9 (quick/thorough) over {00,01,02,EF,FD,FE,FF}; (4) all ordered pairs/triples of 12 serialisations x 0..2 trailing bytes through stream, reader and counted-list decoding with the count in every varint class, the list variable then parsing a shorter and an empty list. distinct_nontrivial = distinct serialisations/strings on which the library accepted",
 	})
 	spStruct := NewSpace(p, "struct", c01Struct)
 	spBytes := NewSpace(p, "bytes", c01Bytes)
